@@ -45,6 +45,16 @@ def witnesses():
     w.append((([], [Func("F", [], [Break()]), Decl([(False, ["I"], Num(0))]),
                     While(Logic("lt", Var("I"), Num(3)), [ExprS(AssignVar("I", Arith("+", Var("I"), Num(1)))), ExprS(Call("F", [])), Display(Var("I"))]),
                     Display(Str("done")), Return(Var("I"))], []), None, "witness"))
+    # a loop signal raised inside a handler of a called method (no loop in that handler) never reaches the caller's loop
+    for sig in (Break(), Continue()):
+        w.append((([], [Func("F", [], [Throw("异常", [Str("x")]), Return(Num(1))], [("异常", [Display(Str("h")), sig, Display(Str("no"))])]),
+                        Decl([(False, ["I"], Num(0))]),
+                        While(Logic("lt", Var("I"), Num(3)), [ExprS(AssignVar("I", Arith("+", Var("I"), Num(1)))), Display(Str("a"), Var("I")),
+                                                              ExprS(Call("F", [])), Display(Str("b"), Var("I"))]),
+                        Display(Str("done")), Return(Var("I"))], []), None, "witness"))
+        w.append((([], [Func("F", [], [Throw("异常", [Str("x")]), Return(Num(1))], [("异常", [sig])]),
+                        Iter(Arr([Num(1), Num(2)]), ["V"], [Display(Var("V")), ExprS(Call("F", [])), Display(Str("after"))]),
+                        Return(Num(0))], []), None, "witness"))
     return w
 
 
